@@ -23,7 +23,7 @@
 enum { QT_A, QT_AAAA, QT_PTR };
 static const int qt_code[3] = { 1, 28, 12 };
 #define NAME_FWD "wWw.exAmple.test"
-#define N_H 14
+#define N_H 23
 #define N_Q 11
 #define N_A 34
 #define N_AU 7
@@ -204,7 +204,8 @@ static int emit_authority(struct bctx *b, int au, int *count_override)
 
 static void build_reply(const struct spec *s, const struct qinfo *q, struct dp_buf *w)
 {
-	static const uint16_t hflags[N_H] = { 0x8180, 0x8180, 0x8180, 0x0180, 0x8980, 0x8181, 0x8182, 0x8183, 0x8184, 0x8185, 0x8189, 0x8380, 0x8383, 0x85b0 };
+	static const uint16_t hflags[N_H] = { 0x8180, 0x8180, 0x8180, 0x0180, 0x8980, 0x8181, 0x8182, 0x8183, 0x8184, 0x8185, 0x8189, 0x8380, 0x8383, 0x85b0,
+	    0x8186, 0x8187, 0x8188, 0x818a, 0x818b, 0x818c, 0x818d, 0x818e, 0x818f };   /* 14..22: the remaining RCODEs, so that all of 0..15 occur */
 	struct bctx b; memset(&b, 0, sizeof b); b.s = s; b.q = q; b.w = w;
 	struct spec base;
 	if (s->kind == K_MUTANT) { base = *s; base.kind = K_GRAMMAR; base.h = 0; base.q = 0; base.a = 5; base.au = 1; base.c = 1; base.cpos = POS_OWNER; b.s = &base; s = &base; }
@@ -590,6 +591,9 @@ static void judge(const struct cx *c, int cfg, const struct spec *s, const uint8
 	if (c0->type != exp_type[qt]) { mc_fail("C33/callback-wrong-type", "%s: type %d for a %s request", g_ctx, c0->type, qtn[qt]); return; }
 	if (c0->result != DNS_ERR_NONE) {
 		MC_COUNT("outcome_error");
+		/* event2/dns.h: "result is one of the DNS_ERR_* values" */
+		if (!((c0->result >= DNS_ERR_FORMAT && c0->result <= DNS_ERR_REFUSED) || (c0->result >= DNS_ERR_TRUNCATED && c0->result <= DNS_ERR_NODATA)))
+			mc_fail("C33/undocumented-result-code", "%s: callback result %d is none of the DNS_ERR_* values (reply flags %04x)", g_ctx, c0->result, A.flags);
 		if (c0->count != 0 || c0->nonnull) mc_fail("C33/error-with-data", "%s: result %d with count %d ptr %d", g_ctx, c0->result, c0->count, c0->nonnull);
 		if (A.cls != R_USABLE && c0->ttl != 0) mc_fail("C33/unmatched-reply-contributes-ttl", "%s: %s reply gave ttl %d", g_ctx, cls_name[A.cls], c0->ttl);
 		if (log->n > 1) mc_fail("C33/callback-more-than-once", "%s: %d callbacks after an error", g_ctx, log->n);
@@ -703,7 +707,7 @@ static void run_exec(const struct spec *s, int cfg, int mode, const struct dp_bu
 /* ------------------------------------------------------------------ */
 /* enumeration                                                          */
 
-struct item { uint32_t spec; uint8_t cfg, mode, plan; };   /* plan: 0 full only, 1 every prefix, 2 tcp cut set, 3 tcp every single cut */
+struct item { uint32_t spec; uint8_t cfg, mode, plan; };   /* plan: 0 full only, 1 every prefix, 2 tcp cut set, 3 tcp every single cut, 4 tcp every pair of cuts */
 static struct spec *specs; static size_t n_specs, cap_specs;
 static struct item *items; static size_t n_items, cap_items;
 static uint64_t *dedupe; static size_t dedupe_cap;
@@ -760,7 +764,7 @@ static void generate(const char *tier)
 {
 	int thorough = !strcmp(tier, "thorough");
 	int maxdev = thorough ? 3 : 2;
-	dedupe_cap = thorough ? (1u << 21) : (1u << 18); dedupe = calloc(dedupe_cap, sizeof *dedupe);
+	dedupe_cap = thorough ? (1u << 22) : (1u << 18); dedupe = calloc(dedupe_cap, sizeof *dedupe);
 	predict_queries();
 	for (int qt = 0; qt < 3; qt++) {
 		struct spec s;
@@ -768,6 +772,7 @@ static void generate(const char *tier)
 		for (int c = 0; c < N_C; c++) for (int cp = 0; cp < (c ? N_CPOS : 1); cp++) {
 			int dev = (h != 0) + (q != 0) + (a != 1) + (au != 0) + (c != 0);
 			if (dev > maxdev) continue;
+			if (h >= 14 && !thorough && dev > 1 && !(dev == 2 && a == 0)) continue;   /* quick: the rarer RCODEs alone and with an empty answer section */
 			memset(&s, 0, sizeof s); s.kind = K_GRAMMAR; s.qt = (uint8_t)qt; s.h = (uint8_t)h; s.q = (uint8_t)q; s.a = (uint8_t)a; s.au = (uint8_t)au; s.c = (uint8_t)c; s.cpos = (uint8_t)cp;
 			s.canon = (uint8_t)is_canon(&s);
 			long id = add_spec(&s);
@@ -778,11 +783,12 @@ static void generate(const char *tier)
 				if (dev <= 1) { add_item(id, 0, M_DIRECT, 1); add_item(id, 1, M_DIRECT, 1); add_item(id, 2, M_DIRECT, 1); add_item(id, 3, M_UDP, 1); add_item(id, 1, M_TCP, 2); add_item(id, 3, M_TCP, 0); }
 				else if (qt == QT_A) add_item(id, 3, M_UDP, 0);
 			} else {
-				/* thorough: <=2 deviations: every prefix direct and over UDP, TCP cut plans, whole message without 0x20/CNAME callback;
-				 * <=1: every prefix under all four configurations, every single TCP cut, every prefix over TCP; 3 deviations: whole message */
-				add_item(id, 3, M_DIRECT, dev <= 2 ? 1 : 0);
-				if (dev <= 2) { add_item(id, 0, M_DIRECT, 0); add_item(id, 3, M_UDP, 1); add_item(id, 3, M_TCP, 2); add_item(id, 3, M_TCP, 0); }
-				if (dev <= 1) { add_item(id, 0, M_DIRECT, 1); add_item(id, 1, M_DIRECT, 1); add_item(id, 2, M_DIRECT, 1); add_item(id, 1, M_TCP, 3); add_item(id, 3, M_TCP, 1); }
+				/* thorough: 3 deviations: every prefix for A, and for AAAA/PTR when the answer dimension is one of them (else whole message);
+				 * <=2: every prefix direct under all four configurations and over UDP, TCP cut plans + whole;
+				 * <=1: every single TCP cut, every pair of TCP cuts, every prefix over TCP */
+				add_item(id, 3, M_DIRECT, (dev <= 2 || qt == QT_A || a != 1) ? 1 : 0);
+				if (dev <= 2) { add_item(id, 0, M_DIRECT, 1); add_item(id, 1, M_DIRECT, 1); add_item(id, 2, M_DIRECT, 1); add_item(id, 3, M_UDP, 1); add_item(id, 3, M_TCP, 2); add_item(id, 3, M_TCP, 0); }
+				if (dev <= 1) { add_item(id, 1, M_TCP, 3); add_item(id, 3, M_TCP, 1); add_item(id, 3, M_TCP, 4); }
 			}
 		}
 		/* mutated captures of a compressed CNAME + address + SOA reply */
@@ -838,8 +844,12 @@ static void item_fn(uint64_t idx)
 	} else if (it->plan == 2) {
 		size_t sl = w.n + 2; size_t cs[][2] = { {1, 0}, {2, 0}, {3, 0}, {sl / 2, 0}, {sl - 1, 0}, {1, 2}, {2, sl - 1}, {1, sl / 2}, {13, 14} };
 		for (size_t i = 0; i < sizeof cs / sizeof cs[0]; i++) { snprintf(g_ctx, sizeof g_ctx, "%s cuts=%zu,%zu len=%zu", d, cs[i][0], cs[i][1], w.n); run_exec(s, it->cfg, it->mode, &w, w.n, cs[i][0], cs[i][1], pq); }
-	} else {
+	} else if (it->plan == 3) {
 		for (size_t cut = 1; cut < w.n + 2; cut++) { snprintf(g_ctx, sizeof g_ctx, "%s cut=%zu len=%zu", d, cut, w.n); run_exec(s, it->cfg, it->mode, &w, w.n, cut, 0, pq); }
+	} else {	/* every pair of cuts of the length-prefixed stream */
+		size_t step = (w.n + 2) / 200 + 1;       /* every pair up to 200 octets; a stride for the few longer messages */
+		for (size_t c1 = 1; c1 < w.n + 1; c1 += step) for (size_t c2 = c1 + 1; c2 < w.n + 2; c2 += step) { snprintf(g_ctx, sizeof g_ctx, "%s cuts=%zu,%zu len=%zu", d, c1, c2, w.n); run_exec(s, it->cfg, it->mode, &w, w.n, c1, c2, pq); }
+		MC_COUNT("items_all_tcp_cut_pairs");
 	}
 	/* outcome signature of the last execution */
 	uint64_t h = mc_hash_u64(7, (uint64_t)g_log.n);
@@ -870,7 +880,7 @@ int main(int argc, char **argv)
 {
 	(void)predicted_plain;
 	generate(dp_argv_param(argc, argv, "tier", "quick"));
-	g_done_cap = (size_t)1 << 25;
+	g_done_cap = (size_t)1 << 27;
 	g_done = mmap(NULL, g_done_cap * sizeof *g_done, PROT_READ | PROT_WRITE, MAP_SHARED | MAP_ANONYMOUS | MAP_NORESERVE, -1, 0);
 	if (g_done == MAP_FAILED) g_done = NULL;
 	struct mc_config cfg = { .property = "C33", .n_items = n_items, .item = item_fn, .init = init };
